@@ -102,10 +102,11 @@ CONFIGS = {
                         "syne_tune.blackbox_repository.blackbox_tabular.BlackboxTabular",
                         "syne_tune.stopping_criterion.StoppingCriterion",
                         "syne_tune.results_callback.StoreResultsCallback"],
-                       {"searcher_name": "random", "self._seed": NOTNONE}),
+                       {"searcher_name": "random", "self._seed": NOTNONE, "seed": NOTNONE}),
 }
 MODEL_FREE = ["fifo_random", "fifo_grid", "fifo_rea", "hyperband_random", "synchb_random", "dehb", "pbt", "msr"]
-COMMON_FIX = {"random_seed": NOTNONE}
+# random_seed is given; the clock is an explicit input (a TimeKeeper object is passed to the scheduler)
+COMMON_FIX = {"random_seed": NOTNONE, "time_keeper": NOTNONE, "self.time_keeper": NOTNONE}
 RS_PARAM = "random_state"
 
 EFFS = ["GlobalNumpyRNG", "PyRandom", "HashOrderIter", "WallClock", "ModuleGlobalWrite", "ClassAttrWrite",
@@ -126,6 +127,11 @@ DYNAMIC_CODE_EXT = {"importlib.import_module", "importlib.__import__"}
 MUTATORS = {"append", "extend", "insert", "pop", "remove", "clear", "update", "add", "discard", "setdefault",
             "popitem", "sort", "reverse", "appendleft", "popleft", "__setitem__", "__delitem__"}
 ORDER_FREE_CONSUMERS = {"sorted", "sum", "min", "max", "any", "all", "len", "set", "frozenset", "bool"}
+ORDERED_CONSUMER_FUNCS = {"list", "tuple", "enumerate", "iter", "next", "zip", "map", "filter", "reversed", "dict",
+                          "OrderedDict", "deque"}
+ORDERED_CONSUMER_ATTRS = {"join", "extend", "choice", "shuffle", "permutation", "array", "asarray", "fromkeys",
+                          "DataFrame", "Series", "concatenate", "stack", "fromiter", "from_iterable", "chain"}
+WITH_DUNDERS = {"__enter__", "__exit__", "__aenter__", "__aexit__"}
 PICKLE_HOOKS = {"__getstate__", "__setstate__", "__reduce__", "__reduce_ex__", "__deepcopy__", "__copy__",
                 "__getnewargs__", "__getnewargs_ex__"}
 
@@ -182,7 +188,22 @@ class Analysis:
         self.tests = {}          # canonical test text -> (id, ast)
         self.stats = {"unresolved_local_calls": 0, "dynamic_getattr": 0, "modules": 0}
         self.blind = []
+        self.set_attrs = {}
+        self._fam_cache = {}
         self.TOP = self.node("T", "<top>")
+
+    def family_set_attrs(self, c):
+        """attribute names assigned a set expression in c, an ancestor or a descendant of c"""
+        if c.qual not in self._fam_cache:
+            fam = set(k.qual for k in c.mro())
+            for d in self.classes.values():
+                if any(k.qual == c.qual for k in d.mro()):
+                    fam.add(d.qual)
+            out = set()
+            for q in fam:
+                out |= self.set_attrs.get(q, set())
+            self._fam_cache[c.qual] = out
+        return self._fam_cache[c.qual]
 
     # ---- nodes ----
     def node(self, kind, name):
@@ -365,8 +386,15 @@ def collect_imports(A):
                         m.syms[k] = v
 
 
+def _is_main_guard(st):
+    return (isinstance(st, ast.If) and isinstance(st.test, ast.Compare) and isinstance(st.test.left, ast.Name)
+            and st.test.left.id == "__name__")
+
+
 def _module_level_statements(body):
     for st in body:
+        if _is_main_guard(st):
+            continue   # script entry point: not import-time code
         yield st
         if isinstance(st, (ast.If, ast.Try, ast.With)) or type(st).__name__ == "TryStar":
             for fld in ("body", "orelse", "finalbody"):
@@ -707,8 +735,7 @@ class BodyVisitor:
             if call is not None:
                 for (c, f) in A.methods_by_name[attr]:
                     if f.did is not None and call_omits_rs(f, call, method=True):
-                        A.edge(sc.node, A.node("N", attr + "@rsnone"), None, lits)
-                        break
+                        A.edge(sc.node, f.did, c.cid, lits)
             else:
                 if any(f.did is not None for (_, f) in A.methods_by_name[attr]):
                     A.edge(sc.node, A.node("N", attr + "@rsnone"), None, lits)
@@ -882,17 +909,33 @@ class BodyVisitor:
                 A.eff(sc.node, "HashOrderIter", lits, "%s set.pop()" % self.where(sc, n))
         else:
             self.visit(f, sc, lits)
-        for a in n.args:
+        type_test = isinstance(f, ast.Name) and f.id in ("isinstance", "issubclass") and len(n.args) == 2
+        for ai, a in enumerate(n.args):
             v = a.value if isinstance(a, ast.Starred) else a
+            if type_test and ai == 1:
+                continue    # isinstance(x, C): mentions C but neither creates an object of C nor calls it
+            if harmless:
+                # sorted(list(S)), len(tuple(x for x in S)), ...: the order-free consumer sees through list()/tuple()
+                while isinstance(v, ast.Call) and isinstance(v.func, ast.Name) and v.func.id in ("list", "tuple") \
+                        and len(v.args) == 1 and not v.keywords:
+                    v = v.args[0]
             if harmless and isinstance(v, (ast.GeneratorExp, ast.ListComp)):
                 self.comp(v, sc, lits, harmless=True)
                 continue
-            if not harmless and self.is_set_expr(v, sc) and not self.is_set_op_call(n):
+            if not harmless and self.is_set_expr(v, sc) and self.is_ordered_consumer(n):
                 A.eff(sc.node, "HashOrderIter", lits, "%s set passed to %s" % (
                     self.where(sc, n), ast.unparse(f)[:40]))
             self.visit(v, sc, lits)
         for k in n.keywords:
             self.visit(k.value, sc, lits)
+
+    def is_ordered_consumer(self, call):
+        f = call.func
+        if isinstance(f, ast.Name):
+            return f.id in ORDERED_CONSUMER_FUNCS
+        if isinstance(f, ast.Attribute):
+            return f.attr in ORDERED_CONSUMER_ATTRS
+        return False
 
     def is_set_op_call(self, call):
         f = call.func
@@ -921,7 +964,7 @@ class BodyVisitor:
         if isinstance(e, ast.Name):
             return e.id in sc.set_vars
         if isinstance(e, ast.Attribute) and isinstance(e.value, ast.Name) and e.value.id == "self":
-            return e.attr in self.A.set_attr_names
+            return sc.cls is not None and e.attr in self.A.family_set_attrs(sc.cls)
         if isinstance(e, ast.IfExp):
             return self.is_set_expr(e.body, sc) or self.is_set_expr(e.orelse, sc)
         return False
@@ -953,6 +996,23 @@ class BodyVisitor:
             self.visit(ch, sc, lits)
 
     v_AsyncFor = v_For
+
+    def v_With(self, n, sc, lits):
+        need = False
+        for it in n.items:
+            e = it.context_expr
+            if isinstance(e, ast.Call):
+                base, _ = self.chain(e.func) if isinstance(e.func, ast.Attribute) else (e.func, [])
+                if isinstance(base, ast.Name) and self.lookup(sc, base.id)[0] in ("builtin", "ext"):
+                    continue     # open(...), np.errstate(...), mock.patch(...): not an object of a closure class
+            need = True
+        if need:
+            for d in ("__enter__", "__exit__"):
+                self.by_name(sc, d, lits, n, None)
+        for ch in ast.iter_child_nodes(n):
+            self.visit(ch, sc, lits)
+
+    v_AsyncWith = v_With
 
     def v_Starred(self, n, sc, lits):
         if self.is_set_expr(n.value, sc):
@@ -1114,6 +1174,8 @@ def call_omits_rs(f, call, method):
     idx = rs_param_index(f)
     if idx is None:
         return False
+    if any(looks_like_rs(a) for a in call.args) or any(looks_like_rs(k.value) for k in call.keywords):
+        return False       # a value called ...random_state is handed on (naming convention, trusted)
     for k in call.keywords:
         if k.arg == RS_PARAM:
             return isinstance(k.value, ast.Constant) and k.value.value is None
@@ -1127,6 +1189,16 @@ def call_omits_rs(f, call, method):
             a = call.args[eff_idx]
             return isinstance(a, ast.Constant) and a.value is None
     return True
+
+
+def looks_like_rs(e):
+    if isinstance(e, ast.Starred):
+        e = e.value
+    if isinstance(e, ast.Name):
+        return RS_PARAM in e.id
+    if isinstance(e, ast.Attribute):
+        return RS_PARAM in e.attr
+    return False
 
 
 def is_static(f):
@@ -1155,24 +1227,29 @@ def analyze(repo):
     for f in A.funcs.values():
         if rs_param_index(f) is not None:
             f.did = A.node("D", f.qual + "@rsnone")
-    # attribute names that hold sets (assigned a set expression anywhere): self.<name>
-    A.set_attr_names = set()
+    # attribute names that hold sets: self.<name> assigned a set expression in a method of the class family
     probe = BodyVisitor(A, fixed_keys)
     for f in A.funcs.values():
-        dummy = Scope(A, f.mod, f.fid, f.cls, f, set(), {})
+        if f.cls is None:
+            continue
+        dummy = Scope(A, f.mod, f.fid, None, f, set(), {})
         for n in ast.walk(f.node):
             if isinstance(n, (ast.Assign, ast.AnnAssign)) and n.value is not None:
                 tg = n.targets if isinstance(n, ast.Assign) else [n.target]
                 for t in tg:
                     if isinstance(t, ast.Attribute) and isinstance(t.value, ast.Name) and t.value.id == "self" \
-                            and probe.is_set_expr(n.value, dummy):
-                        A.set_attr_names.add(t.attr)
+                            and (probe.is_set_expr(n.value, dummy) or annotation_is_set(getattr(n, "annotation", None))):
+                        A.set_attrs.setdefault(f.cls.qual, set()).add(t.attr)
     V = BodyVisitor(A, fixed_keys)
     # --- function bodies
     for f in A.funcs.values():
         locs, gdecl = function_locals(f.node)
         sc = Scope(A, f.mod, f.fid, f.cls, f, locs, {})
         sc.globals_decl = gdecl
+        aa = f.node.args
+        for x in aa.posonlyargs + aa.args + aa.kwonlyargs:
+            if annotation_is_set(x.annotation):
+                sc.set_vars.add(x.arg)
         if getattr(f.cls, "local_to", None):
             pass
         if f.node.name in PICKLE_HOOKS:
@@ -1200,7 +1277,7 @@ def analyze(repo):
             A.edge(c.cid, b.cid)
         for k in c.mro():
             for nm, fs in k.methods.items():
-                if nm.startswith("__") and nm.endswith("__"):
+                if nm.startswith("__") and nm.endswith("__") and nm not in WITH_DUNDERS:
                     for f in fs:
                         A.edge(c.cid, f.fid)
         # class body: import-time code (attributed to module init); decorators and attribute initialisers
@@ -1247,6 +1324,13 @@ def analyze(repo):
                     V.visit(st.value, Scope(A, m, g, None, None, set(), {}), ())
             V.visit(st, msc, ())
     return A
+
+
+def annotation_is_set(a):
+    if a is None:
+        return False
+    t = ast.unparse(a)
+    return any(w in t for w in ("Set[", "FrozenSet[", "AbstractSet[", "set[", "frozenset[")) or t in ("set", "frozenset")
 
 
 def _has_call(e):
@@ -1386,7 +1470,11 @@ def emit(A, out_path, sidecar_path=None):
     # order edges by BFS discovery of the source so that the Coq fixpoint needs few rounds
     order = bfs_order(edges, all_roots)
     edges.sort(key=lambda e: (max(order.get(e[0], 10 ** 9), order.get(e[2], 10 ** 9)), e))
-    effs = sorted(e for e in A.effs if e[0] in live)
+    merged = {}
+    for (nd, kind, lits, where) in sorted(A.effs):
+        if nd in live:
+            merged.setdefault((nd, kind, lits), []).append(where)
+    effs = [(nd, kind, lits, " ; ".join(ws)) for (nd, kind, lits), ws in sorted(merged.items())]
     used_lits = set(l for e in edges for l in e[3]) | set(l for e in effs for l in e[2])
     L = []
     L.append("(* GENERATED by harness/translate_effects.py from the current working tree of the repository.")
@@ -1419,9 +1507,17 @@ def emit(A, out_path, sidecar_path=None):
             L.append(" t%d: %s" % (tid, key.replace("*)", "* )").replace("(*", "( *")))
     L.append("*)")
     L.append("")
-    L.append("Definition edges : list edge := [")
-    L.append(";\n".join(" (%d,%d,%d,%s)" % (e[0], e[1], e[2], plist(e[3])) for e in edges))
-    L.append("].")
+    # chunked (big list literals are slow to parse); E = unguarded edge, EG = edge with guard literals
+    L.append("Definition E (a b c : positive) : edge := (a, b, c, nil).")
+    L.append("Definition EG (a b c : positive) (ls : list positive) : edge := (a, b, c, ls).")
+    parts = []
+    for k in range(0, len(edges), 200):
+        parts.append("edges_%d" % k)
+        L.append("Definition edges_%d : list edge := [" % k)
+        L.append(";\n".join((" E %d %d %d" % e[:3]) if not e[3] else (" EG %d %d %d %s" % (e[0], e[1], e[2], plist(e[3])))
+                            for e in edges[k:k + 200]))
+        L.append("].")
+    L.append("Definition edges : list edge := Eval vm_compute in List.concat [%s]." % "; ".join(parts))
     L.append("")
     L.append("Open Scope string_scope.")
     L.append("Definition effs : list effsite := [")
@@ -1441,10 +1537,13 @@ def emit(A, out_path, sidecar_path=None):
         L.append("Definition off_%s : list positive := %s." % (c, plist([l for l in offs[c] if l in used_lits])))
         L.append("")
     # landmarks for non-vacuity examples
-    for nm, qual in LANDMARKS.items():
+    # landmarks: a renamed function must not break the build (harmless refactor): fall back to TOP (always
+    # reachable) for landmarks used positively and to a fresh, edge-less node for those used negatively
+    for nm, (qual, positive) in LANDMARKS.items():
         nid = A.node_id.get(("F", qual)) or A.node_id.get(("D", qual))
         if nid is None:
-            raise TranslatorError("landmark function %s not found in the source" % qual)
+            nid = A.TOP if positive else len(A.nodes) + 1
+            A.stats.setdefault("landmarks_missing", []).append(qual)
         L.append("Definition fn_%s : positive := %d. (* %s *)" % (nm, nid, qual))
     L.append("")
     text = "\n".join(L) + "\n"
@@ -1460,7 +1559,10 @@ def emit(A, out_path, sidecar_path=None):
             effs=[[nd, kind, list(l), A.nodes[nd - 1][1], w] for (nd, kind, l, w) in effs],
             configs={c: dict(roots=roots[c], off=offs[c],
                              reach=sorted(reach(edges, roots[c], offs[c]))) for c in cfgs},
-            funcs={f.qual: [os.path.relpath(f.mod.path, A.repo), f.node.lineno, f.fid] for f in A.funcs.values()},
+            # file, first line (decorators included), last line, node id: to map executed code objects to nodes
+            funcs={f.qual: [os.path.relpath(f.mod.path, A.repo),
+                            min([f.node.lineno] + [d.lineno for d in f.node.decorator_list]),
+                            getattr(f.node, "end_lineno", f.node.lineno), f.fid] for f in A.funcs.values()},
             stats=dict(A.stats, nodes=len(A.nodes), edges=len(edges), effs=len(effs),
                        functions=len(A.funcs), classes=len(A.classes)),
         )
@@ -1489,10 +1591,10 @@ def bfs_order(edges, roots):
 
 
 LANDMARKS = {
-    "RandomSearcher_get_config": SCHED + "searchers.random_grid_searcher.RandomSearcher.get_config",
-    "generate_random_seed_default": SCHED + "random_seeds.generate_random_seed@rsnone",
-    "Float_Uniform_sample_default": "syne_tune.config_space.Float._Uniform.sample@rsnone",
-    "FIFOScheduler_suggest": SCHED + "fifo.FIFOScheduler._suggest",
+    "RandomSearcher_get_config": (SCHED + "searchers.random_grid_searcher.RandomSearcher._get_config", True),
+    "generate_random_seed_default": (SCHED + "random_seeds.generate_random_seed@rsnone", False),
+    "Float_Uniform_sample_default": ("syne_tune.config_space.Float._Uniform.sample@rsnone", False),
+    "FIFOScheduler_suggest": (SCHED + "fifo.FIFOScheduler._suggest", True),
 }
 
 BLIND_SPOTS = [
@@ -1531,3 +1633,32 @@ def generate(ctx=None, repo=None, out=None, sidecar=None):
 if __name__ == "__main__":
     A, res = generate(repo=sys.argv[1] if len(sys.argv) > 1 else None)
     print(json.dumps(dict(A.stats, nodes=len(A.nodes), edges=len(res["edges"]), effs=len(res["effs"]))))
+
+
+def explain(edges, roots, off, target):
+    """a derivation (list of (src, dst, cond)) showing why `target` is reachable, or None"""
+    offs = set(off)
+    par = {r: None for r in roots}
+    by_src, by_cond = {}, {}
+    for e in edges:
+        if any(l in offs for l in e[3]):
+            continue
+        by_src.setdefault(e[0], []).append(e)
+        by_cond.setdefault(e[2], []).append(e)
+    work = list(roots)
+    while work:
+        nxt = []
+        for x in work:
+            for e in by_src.get(x, []) + by_cond.get(x, []):
+                if e[0] in par and e[2] in par and e[1] not in par:
+                    par[e[1]] = e
+                    nxt.append(e[1])
+        work = nxt
+    if target not in par:
+        return None
+    path, x = [], target
+    while par.get(x) is not None:
+        e = par[x]
+        path.append((e[0], e[1], e[2]))
+        x = e[0]
+    return list(reversed(path))
